@@ -2,6 +2,8 @@ import RR.Proof.SyncWork
 import RR.Proof.Hand
 import RR.Proof.DspFir
 import RR.Proof.Gated
+import RR.Proof.Verdicts
+import RR.Proof.V2S
 
 /-!
 # C09 — block verdicts are truthful
@@ -193,5 +195,45 @@ theorem c09_gated (G : Gated) (hn : G.nout = 1 ∨ G.nout = 2) (st : G.σ) (w : 
 example : (gatedWork (zcGated f32ZOps 4.0 2) (zcGated f32ZOps 4.0 2).init
     ⟨[⟨[1, 2], [], true⟩], [⟨3, true⟩, ⟨0, true⟩]⟩).2.verdict = .waitOut 1 1 := by
   simp [gatedWork, zcGated, in0, out0, noOut]
+
+/-- **Delay**, one call on any windows: it waits for output space only when there is none, for input only
+when the read window is empty (after emitting the zeros it could), and otherwise moves something — always
+within both windows. -/
+theorem c09_delay (cd : Nat) (w : List Nat) (ts : List Tag) (f : Nat) :
+    let r := delayWork ⟨cd, 0⟩ ⟨[⟨w, ts, true⟩], [⟨f, true⟩]⟩
+    let n := r.2.consumed.getD 0 0
+    let p := (r.2.produced.getD 0 ⟨[], []⟩).samples
+    n ≤ w.length ∧ p.length ≤ f ∧
+    ((r.2.verdict = .waitOut 0 1 ∧ f = 0 ∧ n = 0 ∧ p = []) ∨
+     (r.2.verdict = .waitIn 0 1 ∧ 0 < f ∧ w = [] ∧ n = 0 ∧ p.length = min cd f) ∨
+     (r.2.verdict = .again ∧ 0 < f ∧ w ≠ [] ∧ 0 < n + p.length)) :=
+  delay_verdicts cd w ts f
+
+/-- **AuEncode**, one call on any windows and in every state: with header bytes left it waits only for a
+completely full output; afterwards for input only when the window is empty and for exactly two bytes of
+output when fewer than two are free (so that granting the request lets it progress); otherwise it moves data. -/
+theorem c09_au_encode (q : Nat → Nat) (st : Au.EncSt) (hst : st ≠ some []) (w : List Nat) (f : Nat) :
+    let r := Au.encWork q st ⟨[⟨w, [], true⟩], [⟨f, true⟩]⟩
+    let n := r.2.consumed.getD 0 0
+    let p := (r.2.produced.getD 0 ⟨[], []⟩).samples
+    n ≤ w.length ∧ p.length ≤ f ∧
+    ((r.2.verdict = .waitOut 0 1 ∧ st ≠ none ∧ f = 0 ∧ n = 0 ∧ p = []) ∨
+     (r.2.verdict = .waitIn 0 1 ∧ st = none ∧ w = [] ∧ n = 0 ∧ p = []) ∨
+     (r.2.verdict = .waitOut 0 2 ∧ st = none ∧ w ≠ [] ∧ f < 2 ∧ n = 0 ∧ p = []) ∨
+     (r.2.verdict = .again ∧ 0 < n + p.length)) :=
+  Au.enc_verdicts q st hst w f
+
+/-- **VecToStream**: a packet that does not fit makes the block ask for exactly the packet's length on its
+output (with which the next call emits it); see `c10_v2s_call`. -/
+theorem c09_v2s (p : List Nat) (hp : ∀ x ∈ p, x + 1 < pktBase) (rest : List Nat) (f : Nat) (hfit : p.length > f) :
+    let r := v2sWork () ⟨[⟨encodePkt p :: rest, [], true⟩], [⟨f, true⟩]⟩
+    r.2.verdict = .waitOut 0 p.length ∧ r.2.consumed.getD 0 0 = 0 ∧
+    (let r' := v2sWork () ⟨[⟨encodePkt p :: rest, [], true⟩], [⟨p.length, true⟩]⟩
+     r'.2.verdict = .again ∧ (r'.2.produced.getD 0 ⟨[], []⟩).samples = p) := by
+  have h1 := (v2s_call p hp rest f).2
+  have h2 := (v2s_call p hp rest p.length).2
+  simp only [hfit, if_true] at h1
+  simp only [Nat.lt_irrefl, gt_iff_lt, if_false] at h2
+  exact ⟨h1.1, h1.2.1, h2.1, h2.2.2.1⟩
 
 end RR.Props.C09
